@@ -1,7 +1,7 @@
 (* Additions to HandlerProofs.v: the strictness in effect for DECLARED pointer
    types (the one family strict_eff_spec excludes) and the combined statements
    that props/C15.v and props/C16.v restate. *)
-From Coq Require Import List NArith Bool Arith Lia.
+From Coq Require Import List NArith Bool Arith Lia Sorting.Permutation.
 From JV Require Import Bytes Handler HandlerProofs.
 Import ListNotations.
 
@@ -82,3 +82,43 @@ Lemma positional_arity_spec :
 Proof.
   split; [apply positional_arity|]. split; [apply positional_context_only|apply positional_ok_iff].
 Qed.
+
+(* ------------------------------------------------------------------------- *)
+(** * One handler value, many requests: every call is answered by itself      *)
+
+(* This is the SPECIFICATION of statelessness (the model of a handler has no state
+   by construction); that the implementation keeps none - no scratch value, stub or
+   buffer shared between calls - is what the sequence and the concurrent families of
+   the correspondence check test. *)
+Section Serve.
+  Variable decode : ty -> bool -> pvalue -> option value.
+  Variable zero : ty -> value.
+
+  Lemma serve_stateless fi ps1 p ps2 :
+    nth_error (serve decode zero fi (ps1 ++ p :: ps2)) (length ps1) = Some (wrap decode zero fi p) /\
+    length (serve decode zero fi (ps1 ++ p :: ps2)) = length (ps1 ++ p :: ps2).
+  Proof.
+    unfold serve. split; [|apply map_length].
+    rewrite map_app. rewrite nth_error_app2 by (rewrite map_length; lia).
+    rewrite map_length, Nat.sub_diag. reflexivity.
+  Qed.
+
+  Lemma serve_app fi ps1 ps2 :
+    serve decode zero fi (ps1 ++ ps2) = serve decode zero fi ps1 ++ serve decode zero fi ps2.
+  Proof. apply map_app. Qed.
+
+  (* requests taken up in another order get the same answers, request by request *)
+  Lemma serve_permutation fi ps ps' :
+    Permutation ps ps' -> Permutation (serve decode zero fi ps) (serve decode zero fi ps').
+  Proof. apply Permutation_map. Qed.
+
+  Lemma serve_positional xs outs names fi ps1 p ps2 :
+    positional (FFunc (TCtx :: xs) false outs) names = Ok fi ->
+    nth_error (serve decode zero fi (ps1 ++ p :: ps2)) (length ps1) = Some (wrap decode zero fi p).
+  Proof. intros _. apply serve_stateless. Qed.
+End Serve.
+
+Example serve_nonvacuous :
+  serve demo_decode demo_zero (fi_of strict_fn) [demo_params; PAbsent; demo_params; PObject [(bs [97], bs [49])]] =
+  [OInvalidParams; OCall [demo_zero TAny]; OInvalidParams; OCall [Val (bs [118]) []]].
+Proof. vm_compute. reflexivity. Qed.
